@@ -66,6 +66,16 @@ def pool_specs(dt="f8"):
         "SumKronIdentitiesFirst": {"k": "Sum", "via": "ctor", "args": [
             {"k": "Kronecker", "via": "ctor", "args": [{"k": "Identity", "n": 2, "dt": dt}, {"k": "Identity", "n": 2, "dt": dt}]}, D(46)]},
         "BlockDiagIdentityFirst": {"k": "BlockDiag", "via": "ctor", "mult": [1, 1], "args": [{"k": "Identity", "n": 2, "dt": dt}, D(47, 2, 2)]},
+        # composites of slices obtained by indexing (the parametric class of such a composite does not say what was sliced): over
+        # a matrix-free operator they hold no array parameter at all, over a Dense operator they hold its matrix
+        "SumOfSlicesMatrixFree": {"k": "Sum", "via": "fn", "args": [{"k": "Sliced", "via": "fn", "slices": [{"s": [0, 3, None]}, {"s": [1, 4, None]}], "arg": {"k": "Generic", "shape": [N, N], "dt": dt, "seed": 60}},
+                                                                       {"k": "Sliced", "via": "fn", "slices": [{"s": [1, 4, None]}, {"s": [0, 3, None]}], "arg": {"k": "Generic", "shape": [N, N], "dt": dt, "seed": 61}}]},
+        "SumOfSlicesDense": {"k": "Sum", "via": "fn", "args": [{"k": "Sliced", "via": "fn", "slices": [{"s": [0, 3, None]}, {"s": [1, 4, None]}], "arg": D(62)},
+                                                                  {"k": "Sliced", "via": "fn", "slices": [{"s": [1, 4, None]}, {"s": [0, 3, None]}], "arg": D(63)}]},
+        "ProductOfSlicesMatrixFree": {"k": "Product", "via": "fn", "args": [{"k": "Sliced", "via": "fn", "slices": [{"s": [0, 3, None]}, {"s": [1, 4, None]}], "arg": {"k": "Generic", "shape": [N, N], "dt": dt, "seed": 64}},
+                                                                               {"k": "Sliced", "via": "fn", "slices": [{"s": [1, 4, None]}, {"s": [0, 3, None]}], "arg": {"k": "Generic", "shape": [N, N], "dt": dt, "seed": 65}}]},
+        "ProductOfSlicesDense": {"k": "Product", "via": "fn", "args": [{"k": "Sliced", "via": "fn", "slices": [{"s": [0, 3, None]}, {"s": [1, 4, None]}], "arg": D(66)},
+                                                                          {"k": "Sliced", "via": "fn", "slices": [{"s": [1, 4, None]}, {"s": [0, 3, None]}], "arg": D(67)}]},
         "GenericFlip": {"k": "Generic", "shape": [N, N], "dt": dt, "seed": 50, "gen": "flip"},  # product returns a view of the operand
         # the same kinds built from other legal argument forms: a NumPy scalar / 0-d array instead of a Python float
         "ScalarMulNpScalar": {"k": "ScalarMul", "n": N, "dt": dt, "c": 2.0, "cform": "npscalar"},
@@ -367,7 +377,26 @@ def run_flatten(ctx, case, spec, A, owned):
     arr_leaves = [x for x in leaves if isinstance(x, np.ndarray)]
     params = array_attrs(A)
     ids_leaves, ids_params = {id(x) for x in arr_leaves}, {id(x) for x in params}
-    ctx.check("leaves-are-exactly-the-array-parameters", bool(ids_leaves == ids_params and len(arr_leaves) == len(leaves)), site=site, preds=preds,
+    ok_leaves = bool(ids_leaves == ids_params and len(arr_leaves) == len(leaves))
+    if not ok_leaves and site != "Sliced":
+        # blame: a discrepancy that consists only of the selectors of Sliced sub-operators (slice objects listed as leaves, index
+        # arrays hidden in the static part) is the Sliced kind's, whatever composite the slices sit in
+        sel = []
+
+        def walk(op, depth=0):
+            if isinstance(op, ops.Sliced):
+                sel.extend(op.slices)
+            if depth < 6 and isinstance(op, ops.LinearOperator):
+                for v in vars(op).values():
+                    for w in (v if isinstance(v, (tuple, list)) else [v]):
+                        if isinstance(w, ops.LinearOperator):
+                            walk(w, depth + 1)
+        walk(A)
+        sel_ids = {id(x) for x in sel}
+        odd = [x for x in leaves if not isinstance(x, np.ndarray)] + [x for x in params if id(x) not in ids_leaves] + [x for x in arr_leaves if id(x) not in ids_params]
+        if odd and all(id(x) in sel_ids for x in odd):
+            site = "Sliced"
+    ctx.check("leaves-are-exactly-the-array-parameters", ok_leaves, site=site, preds=preds,
               detail={"n_leaves": len(leaves), "n_array_leaves": len(arr_leaves), "n_array_parameters": len(params),
                       "non_array_leaves": [type(x).__name__ for x in leaves if not isinstance(x, np.ndarray)][:4],
                       "params_not_leaves": len(ids_params - ids_leaves), "leaves_not_params": len(ids_leaves - ids_params)})
@@ -423,7 +452,9 @@ def run_order(ctx, case):
     ctx.begin_case(case, sig="order", nontrivial=True)
     orders = [[a, b] for a, b in itertools.permutations(["SlicedSlices", "SlicedArrays", "Product", "Sum", "Kronecker", "Dense", "ScalarMul", "Identity"], 2)]
     orders = orders[:28] + [list(reversed(names)), names] + [["ScalarMulNpScalar", "ScalarMul"], ["ScaledNpScalar", "Product"], ["ScalarMulArr0", "ScalarMul"],
-                            ["ScalarMul", "ScalarMulNpScalar"], ["ScaledNpScalar", "ScalarMulNpScalar"]]
+                            ["ScalarMul", "ScalarMulNpScalar"], ["ScaledNpScalar", "ScalarMulNpScalar"],
+                            ["SumOfSlicesMatrixFree", "SumOfSlicesDense"], ["SumOfSlicesDense", "SumOfSlicesMatrixFree"],
+                            ["ProductOfSlicesMatrixFree", "ProductOfSlicesDense"], ["ProductOfSlicesDense", "ProductOfSlicesMatrixFree"]]
     results = {}
     procs = []
     for od in orders:
@@ -445,9 +476,17 @@ def run_order(ctx, case):
     if len(ok_runs) < 2:
         ctx.inconclusive.append("order-of-instantiation subprocesses produced no verdicts")
         return
+    from harness import refmodel as R_
     for nm in names:
-        variants = {}
+        variants, coarse = {}, {}
         for od, v in ok_runs.items():
             variants.setdefault(json.dumps(v.get(nm), sort_keys=True), []).append(od)
-        ctx.check("independent-of-instantiation-order", len(variants) == 1, site=pool_specs()[nm]["k"],
+            vv = v.get(nm) or {}
+            # (the array parameters only: which arrays are leaves, and the round trip)
+            coarse.setdefault(json.dumps({"same": vv.get("same"), "error": vv.get("error"), "n_array_leaves": sum(1 for t in vv.get("leaf_types", []) if t == "ndarray"),
+                                          "leaves_eq_params": vv.get("leaves_eq_params")}, sort_keys=True), []).append(od)
+        site = pool_specs()[nm]["k"]
+        if len(variants) > 1 and len(coarse) == 1 and "Sliced" in R_.kinds(pool_specs()[nm]):
+            site = "Sliced"  # (only the slice objects of Sliced parts come and go with the order: the Sliced kind's registry)
+        ctx.check("independent-of-instantiation-order", len(variants) == 1, site=site,
                   preds={"member": nm}, detail={"variants": {k: [list(o) for o in v[:2]] for k, v in variants.items()}})
